@@ -792,6 +792,8 @@ type symbols struct {
 	vars map[string]*Sort
 	apps map[string]*Term
 	sorts map[string]bool
+	seen  map[*Term]bool
+	boundAll map[string]bool
 }
 
 func newSymbols() *symbols {
@@ -808,38 +810,63 @@ func (sy *symbols) noteSort(s *Sort) {
 }
 
 func (sy *symbols) collect(t *Term, bound map[string]bool) {
-	switch t.Op {
-	case "var":
-		if !bound[t.Name] {
-			if old, ok := sy.vars[t.Name]; ok && old != t.S {
-				panic(fmt.Sprintf("symbol %s used at two sorts: %s and %s", t.Name, old, t.S))
-			}
-			sy.vars[t.Name] = t.S
-			sy.noteSort(t.S)
+	if sy.seen == nil {
+		sy.seen = map[*Term]bool{}
+		sy.boundAll = map[string]bool{}
+	}
+	// bound variables have globally unique names: gather them first
+	var cb func(t *Term)
+	cbSeen := map[*Term]bool{}
+	cb = func(t *Term) {
+		if cbSeen[t] {
+			return
 		}
-		return
-	case "app":
-		if _, ok := sy.apps[t.Name]; !ok {
-			sy.apps[t.Name] = t
-			sy.noteSort(t.S)
-			for _, a := range t.Args {
-				sy.noteSort(a.S)
-			}
-		}
-	case "forall", "exists":
-		nb := map[string]bool{}
-		for k := range bound {
-			nb[k] = true
-		}
+		cbSeen[t] = true
 		for _, b := range t.Bound {
-			nb[b.Name] = true
+			sy.boundAll[b.Name] = true
 		}
-		sy.collect(t.Args[0], nb)
-		return
+		for _, a := range t.Args {
+			cb(a)
+		}
 	}
-	for _, a := range t.Args {
-		sy.collect(a, bound)
+	cb(t)
+	for k := range bound {
+		sy.boundAll[k] = true
 	}
+	var walk func(t *Term)
+	walk = func(t *Term) {
+		if sy.seen[t] {
+			return
+		}
+		sy.seen[t] = true
+		switch t.Op {
+		case "var":
+			if !sy.boundAll[t.Name] {
+				if old, ok := sy.vars[t.Name]; ok && old != t.S {
+					panic(fmt.Sprintf("symbol %s used at two sorts: %s and %s", t.Name, old, t.S))
+				}
+				sy.vars[t.Name] = t.S
+				sy.noteSort(t.S)
+			}
+			return
+		case "app":
+			if _, ok := sy.apps[t.Name]; !ok {
+				sy.apps[t.Name] = t
+				sy.noteSort(t.S)
+				for _, a := range t.Args {
+					sy.noteSort(a.S)
+				}
+			}
+		case "forall", "exists":
+			for _, b := range t.Bound {
+				sy.noteSort(b.S)
+			}
+		}
+		for _, a := range t.Args {
+			walk(a)
+		}
+	}
+	walk(t)
 }
 
 func (sy *symbols) decls(defined map[string]bool) string {
@@ -882,47 +909,52 @@ func (sy *symbols) decls(defined map[string]bool) string {
 	return sb.String()
 }
 
-// substitute variables by name.
+// substitute variables by name (memoised over the term DAG; bound variables have unique names and
+// are never substituted).
 func subst(t *Term, m map[string]*Term) *Term {
+	return substMemo(t, m, map[*Term]*Term{})
+}
+
+func substMemo(t *Term, m map[string]*Term, memo map[*Term]*Term) *Term {
+	if r, ok := memo[t]; ok {
+		return r
+	}
+	var res *Term
 	switch t.Op {
 	case "var":
 		if r, ok := m[t.Name]; ok {
-			return r
+			res = r
+		} else {
+			res = t
 		}
-		return t
 	case "const", "true", "false":
-		return t
+		res = t
 	case "forall", "exists":
-		m2 := m
-		for _, b := range t.Bound {
-			if _, ok := m[b.Name]; ok {
-				if &m2 == &m {
-					m2 = map[string]*Term{}
-					for k, v := range m {
-						m2[k] = v
-					}
-				}
-				delete(m2, b.Name)
+		body := substMemo(t.Args[0], m, memo)
+		if body == t.Args[0] {
+			res = t
+		} else if t.Op == "forall" {
+			res = Forall(t.Bound, body)
+		} else {
+			res = Exists(t.Bound, body)
+		}
+	default:
+		args := make([]*Term, len(t.Args))
+		ch := false
+		for i, a := range t.Args {
+			args[i] = substMemo(a, m, memo)
+			if args[i] != a {
+				ch = true
 			}
 		}
-		body := subst(t.Args[0], m2)
-		if t.Op == "forall" {
-			return Forall(t.Bound, body)
-		}
-		return Exists(t.Bound, body)
-	}
-	args := make([]*Term, len(t.Args))
-	ch := false
-	for i, a := range t.Args {
-		args[i] = subst(a, m)
-		if args[i] != a {
-			ch = true
+		if !ch {
+			res = t
+		} else {
+			res = rebuild(t, args)
 		}
 	}
-	if !ch {
-		return t
-	}
-	return rebuild(t, args)
+	memo[t] = res
+	return res
 }
 
 // rebuild re-applies the simplifying constructors.
